@@ -513,7 +513,9 @@ def check_kani_property(prop, spec, tier):
                 if not ok:
                     continue
                 tail = attempts[-1]["tail"]
-                if md_only or any((f["desc"] and f["desc"] in tail) or (f["loc"] and f["loc"] != "unknown:unknown" and f["loc"] + ":" in tail)
+                # (harnesses whose native form observes the state after a caught panic fail natively in their own,
+                # differently worded assertion - any native failure of such a body is accepted)
+                if md_only or h in spec.get("expect_panic", {}) or any((f["desc"] and f["desc"] in tail) or (f["loc"] and f["loc"] != "unknown:unknown" and f["loc"] + ":" in tail)
                                   for f in wanted):
                     t = {"check": "synthetic input stream (no solver trace available): " + wanted[0]["desc"], "bytes": cand,
                          "is_cover": False}
